@@ -22,6 +22,12 @@ CHILD = [
     '1 .real', '1.0.real', 'a[b](c).d', '(a := b, c)', 'f(a := b)', '{*a}', '{**a}', 'a <= b', 'a > b', 'a >= b', 'a != b', 'a is b',
 ]
 N_CHILD = len(CHILD)
+# the child kinds that need special treatment somewhere (tuples, yields, walrus, starred, lambda, conditional, comparison,
+# unary minus, f-string, bytes with escapes): the quick tier crosses every slot / statement template with these 32
+INTERESTING = [CHILD.index(t) for t in [
+    'a', '1', '(a, b)', '(a,)', '[a, b]', 'a + b', 'a ** b', '-a', 'not a', 'a and b', 'a or b', 'a < b', 'a if b else c', 'lambda: a', 'f(a)',
+    'a.b', 'a[b]', '[*a, b]', '(x for x in a)', 'await a', '(yield)', '(yield a)', '(yield from a)', '(x := a)', 'f"{a}"', '-1', '1.5', '"s"',
+    '(a, *b)', 'a < b <= c', '2 ** -1', 'b"\\x00\\xff"']]
 
 # --- expression slots --------------------------------------------------------------------------------------------
 SLOT = [
